@@ -55,6 +55,11 @@ def run(chk, binary, sched, label, module, consts, invariants, replay_kind, race
         why = "%s: invariant %s %s fails on what was observed from %s after call %d (%s)" % (
             label, viol["invariant"], viol["step_violations"], what, viol["line"] - 1,
             json.dumps(viol["cmds"][-1]) if viol["cmds"] else "init")
+        ls = viol.get("last_step") or {}
+        detail = {k: ls[k] for k in ("fields", "note", "status", "tookMs", "checks", "victim", "phase", "kill")
+                  if ls.get(k) not in (None, "", [], 0, False)}
+        if detail:
+            why += "\n  observed: " + json.dumps(detail)[:1500]
         rs = {k: v2 for k, v2 in sched.items() if k not in strip}
         rs["behaviours"] = [viol["cmds"]]
         chk.violation({"kind": replay_kind, "binary": binary, "module": module, "sched": rs, "seed": chk.seed,
